@@ -114,6 +114,12 @@ func runStreamFamily(family string, sc *streamScenario, rec *recorder, opt strin
 			lvl = 2
 		}
 		runReader(sc, rec, lvl)
+	case "rfault":
+		lvl := 1
+		if opt == "deep" {
+			lvl = 2
+		}
+		runRFault(sc, rec, lvl)
 	case "robust":
 		lvl := 1
 		if opt == "deep" {
